@@ -78,6 +78,8 @@ def _accuracy_job(job):
     if case["problem"] == "pair":
         rtol, atol = tol, tol * 1e-9
         y0 = [3.0, 1.0, 2.0 ** -20]
+    if case["problem"] == "decay":
+        rtol, atol = tol, tol * 1e-26        # almost purely relative: the tolerance must follow the solution down 17 orders of magnitude
     sc = gen.base(m, 0.0, T, dt0, rtol=rtol, atol=atol, problem=case["problem"], y0=y0)
     rtol, atol = sc["rtol"], sc["atol"]      # gen.base bounds the tolerance per method
     if via_setters:
@@ -90,6 +92,19 @@ def _accuracy_job(job):
         r = {"ok": False, "t": [0.0], "y": [[float("nan")]]}
     exacts = [Fraction(c["num"], c["den"]) for c in case["comps"]]
     ok = bool(r["ok"])
+    if case["problem"] == "decay":
+        # the specification encloses the base b = exp(-1/8): y(T) lies in [lo^k, hi^k]; the error is the distance to that interval
+        lo, hi = exacts[0] ** case["k"], exacts[1] ** case["k"]
+        y = r["y"][-1][0] if ok else float("nan")
+        if ok and np.isfinite(y):
+            fy = num.frac(y)
+            err = max(Fraction(0), lo - fy, fy - hi)
+            eu = int(min(num.CAP, math.ceil(err / (Fraction(atol) + Fraction(rtol) * lo))))
+            endu = num.gap_units(r["t"][-1], T, [T], np.float64)
+        else:
+            eu, endu = num.CAP, num.CAP
+        return {"problem": case["problem"], "k": case["k"], "num": case["num"], "den": case["den"], "comps": case["comps"], "ok": ok, "errUnits": eu,
+                "endUnits": endu, "method": str(m) + (" tolerances-by-setter" if via_setters else ""), "tol": tol, "dt0": dt0, "steps": len(r["t"]) - 1}
     ys = [r["y"][-1][i] for i in range(len(exacts))] if ok else [float("nan")]
     if ok and all(np.isfinite(y) for y in ys):
         # the worst component, each in units of its own (atol + rtol |y_i|)
@@ -135,7 +150,7 @@ def check(run, replay=None):
         for c in gen_cases:
             for m in meths:
                 for tol in ((1e-3, 1e-6, 1e-9) if not thorough else (1e-3, 1e-5, 1e-7, 1e-9, 1e-11)):
-                    if tol < gen.tol_floor(m):
+                    if tol < gen.tol_floor(m) or (c["problem"] == "decay" and tol < 1e-5):
                         continue
                     for dt0 in ((1e-4, 0.25, 5.0) if thorough else ((0.25, 5.0) if tol > 1e-8 else (1e-4, 0.25))):
                         jobs.append((c, m, tol, dt0))
